@@ -37,6 +37,10 @@ def demo_commands(demo_dir):
             dst = dst + os.path.basename(src)
         copies.append((os.path.basename(src), dst))
     cmds = [m.group(0).strip().rstrip("`").strip() for m in re.finditer(r"cargo (?:test|run)[^\n`]*", text)]
+    # general rule: everything in demo/ (files and support directories) goes to the tests directory the README names
+    m = re.search(r"(crates/[\w-]+/tests)/?", text)
+    if m:
+        copies = [(n, m.group(1) + "/" + n) for n in sorted(os.listdir(demo_dir)) if not n.lower().startswith("readme")]
     return copies, cmds
 
 
@@ -71,7 +75,10 @@ def main():
             for src, dst in copies:
                 d = os.path.join(wt, dst)
                 os.makedirs(os.path.dirname(d), exist_ok=True)
-                shutil.copy(os.path.join(demo_dir, src), d)
+                if os.path.isdir(os.path.join(demo_dir, src)):
+                    shutil.copytree(os.path.join(demo_dir, src), d, dirs_exist_ok=True)
+                else:
+                    shutil.copy(os.path.join(demo_dir, src), d)
             # without the patch: demo passes
             res_without = []
             for c in cmds:
@@ -88,7 +95,10 @@ def main():
             # existing suite with the patch (remove demo files first so they do not count)
             for _, dst in copies:
                 try:
-                    os.remove(os.path.join(wt, dst))
+                    if os.path.isdir(os.path.join(wt, dst)):
+                        shutil.rmtree(os.path.join(wt, dst))
+                    else:
+                        os.remove(os.path.join(wt, dst))
                 except FileNotFoundError:
                     pass
             rc, o = sh("cargo test --workspace --no-fail-fast --offline", cwd=wt, timeout=3600)
@@ -107,7 +117,9 @@ def main():
     # scratch worktree of /repo's HEAD when --scratch-repo is given (so that /repo stays usable)
     target = REPO
     env = None
-    if "--scratch-repo" in sys.argv:
+    if "--confirm-only" in sys.argv:
+        checks = []
+    if "--scratch-repo" in sys.argv and checks:
         target = f"/var/tmp/jxlv-evalrepo-{name}"
         sh(f"git -C {REPO} worktree remove --force {target}")
         shutil.rmtree(target, ignore_errors=True)
@@ -115,10 +127,11 @@ def main():
         assert rc == 0, o
         env = {"VERIF_REPO": target}
     meta["checks_ran_against"] = target
-    rc, o = sh(f"git -C {target} status --porcelain")
-    assert o.strip() == "", f"{target} not clean: {o}"
-    rc, o = sh(f"git -C {target} apply {patch}")
-    assert rc == 0, o
+    if checks:
+        rc, o = sh(f"git -C {target} status --porcelain")
+        assert o.strip() == "", f"{target} not clean: {o}"
+        rc, o = sh(f"git -C {target} apply {patch}")
+        assert rc == 0, o
     try:
         for c in checks:
             t0 = time.time()
@@ -127,7 +140,8 @@ def main():
             meta["ran"].append({"check": c, "exit": rc, "violation_classes": viol, "wall_s": round(time.time() - t0, 1), "tail": o.strip().splitlines()[-1][:300] if o.strip() else ""})
             print(f"{name}: check {c} -> exit {rc} {viol[:3]}")
     finally:
-        sh(f"git -C {target} checkout -- .")
+        if checks:
+            sh(f"git -C {target} checkout -- .")
         if target != REPO:
             sh(f"git -C {REPO} worktree remove --force {target}")
             shutil.rmtree(target, ignore_errors=True)
@@ -136,12 +150,18 @@ def main():
         for k, v in prev.items():
             if k not in meta or (k in ("demo_confirms", "compiles_and_passes_suite", "demo_cmds", "demo_copies", "suite_passed_count", "suite_baseline_missing", "demo_rc_with_patch", "demo_rc_without_patch") and skip_confirm):
                 meta[k] = v
-        meta["earlier_rounds"] = prev.get("earlier_rounds", []) + [{"ran": prev.get("ran", []), "detected_by": prev.get("detected_by", [])}]
+        if checks:
+            meta["earlier_rounds"] = prev.get("earlier_rounds", []) + [{"ran": prev.get("ran", []), "detected_by": prev.get("detected_by", [])}]
+        else:
+            meta["ran"] = prev.get("ran", [])
+            meta["checks_ran_against"] = prev.get("checks_ran_against")
     meta["detected_by"] = [r["check"] for r in meta["ran"] if r["exit"] == 1]
     dst = os.path.join(VERIF, "seeded", name)
     os.makedirs(dst, exist_ok=True)
-    shutil.copy(patch, os.path.join(dst, "patch.diff"))
-    if os.path.isdir(demo_dir):
+    same = os.path.realpath(out_dir) == os.path.realpath(dst)
+    if not same:
+        shutil.copy(patch, os.path.join(dst, "patch.diff"))
+    if os.path.isdir(demo_dir) and not same:
         shutil.rmtree(os.path.join(dst, "demo"), ignore_errors=True)
         shutil.copytree(demo_dir, os.path.join(dst, "demo"))
     json.dump(meta, open(os.path.join(dst, "meta.json"), "w"), indent=1)
